@@ -146,6 +146,17 @@ class UDPMessageDeserializer:
         msg.raw_body = None
         msg.deserializer = None
 
+        try:
+            self._parse_message_body(msg, raw_body)
+        except Exception:
+            # Leave the message the way we found it so that it can still be
+            # forwarded verbatim even though we couldn't make sense of the body.
+            msg.blocks = {}
+            msg.raw_body = raw_body
+            msg.deserializer = weakref.ref(self)
+            raise
+
+    def _parse_message_body(self, msg: Message, raw_body: bytes):
         if msg.zerocoded:
             raw_body = self.zero_code_expand(raw_body)
 
